@@ -9,8 +9,9 @@ F = [
  ("F04", ["C04", "C05"], "open", "", "ts_vreg_resid_mean uses n*sum(t^2) in the residual sum", "[0,1] w=2 mp=0 -> 2.5, expected 0"),
  ("F05", ["C04", "C05"], "open", "", "ts_vcov computes n-1 on usize with n=0 when min_periods is 0", "[0]x[null] w=2 mp=0 -> overflow panic"),
  ("F06", ["C05"], "open", "", "ts_vrank on empty input computes 0-1", "[] w=1"),
- ("F07", ["C05"], "open", "", "extrema family on an empty non-Vec container trips assert!(window > 0)", "empty VecDeque ts_vmin(1, 0)"),
- ("F09", ["C12"], "open", "", "vquantile / vmedian return null when the single valid element is not first", "[null, 0] q=0 -> null"),
+ ("F07", ["C05", "C07"], "open", "", "extrema family on an empty non-Vec container trips assert!(window > 0)", "empty VecDeque ts_vmin(1, 0)"),
+ ("F08", ["C07"], "open", "", "try_as_slice() of a reversed contiguous ndarray view returns the memory-order slice", "view [0,1] with step -1 -> Some([1,0])"),
+ ("F09", ["C08", "C12"], "open", "", "vquantile / vmedian return null when the single valid element is not first", "[null, 0] q=0 -> null"),
  ("F10", ["C12"], "open", "", "vrank of a length-1 all-null input is 1", "[null] -> [1.0]"),
  ("F11", ["C09", "C13"], "open", "", "shift has no guard for |n| > len: underflow panic for n > 0, n_abs items for n < 0", "[] shift(1)"),
  ("F12", ["C09"], "open", "", "TrustIter::size_hint is constant: after partial consumption it over-reports", "vpartition(0) after one next(): hint 1, remaining 0"),
@@ -30,7 +31,7 @@ F = [
  ("F26", ["C18"], "open", "", "DateTime<Nanosecond>::parse panics on instants outside the i64 nanosecond range", "\"3000-01-01\""),
  ("F27", ["C19"], "open", "", "integer range truncates the element count and turns an empty / backward span into a huge length", "range(1,0,1) i32 -> capacity overflow; range(0,5,2) -> [0,2]"),
  ("F28", ["C20"], "open", "", "half_life's bisection inverts its bracket ((last_n, n) = (life, last_n)) and underflows", "ramp 0..5 mp=1 -> overflow panic"),
- ("F29", ["C02"], "open", "", "Vec/array/ndarray inputs returning a Polars container panic: their fast paths use O::uninit + uset, unsupported by ChunkedArray", "vec![10].rolling_apply::<Int32Chunked,_,_>(1, f, None)"),
+ ("F29", ["C02", "C07"], "open", "", "Vec/array/ndarray inputs returning a Polars container panic: their fast paths use O::uninit + uset, unsupported by ChunkedArray", "vec![10].rolling_apply::<Int32Chunked,_,_>(1, f, None)"),
  ("F30", ["C03"], "open", "", "ts_vminmaxnorm subtracts in the integer element type: overflow when max-min exceeds the type's range", "[-1, 2147483647] i32 w=2"),
  ("F31", ["C09"], "open", "", "the Polars container iterator (titer of a ChunkedArray) keeps its initial size hint while being consumed", "Float64Chunked [0.0]: after next() hint still 1"),
  ("F32", ["C15"], "open", "", "a null float cast to String gives \"NaN\", which the string type does not regard as null", "f64::NAN.cast::<String>()"),
